@@ -923,12 +923,12 @@ func genE2E(r *vh.Rand, i int, tier string) string {
 		old.NonVotings[3] = addrOf(3)
 	}
 	post := 1
-	switch (i / 2) % 3 {
+	switch (i + i/3) % 3 {
 	case 0:
 		hist = append(hist, "v2")
 		old.Addresses[2] = addrOf(2)
 		post = 0
-	case 1:
+	case 2:
 		hist = append(hist, "w4")
 		old.Witnesses[4] = addrOf(4)
 		post = 0
